@@ -107,12 +107,19 @@ class Exec(BufMixin):
     # ------------------------------------------------------------------
     # obligations
     # ------------------------------------------------------------------
-    def prove(self, st, fr, kind, form, node=None, clause=None, name=None):
+    def prove(self, st, fr, kind, form, node=None, clause=None, name=None, splits=None):
         lineno = getattr(node, 'lineno', 0)
         nm = name or '%s:%s@%d' % (fr.fname if fr else '?', kind, lineno)
         for (h, g, sk) in smt.to_goals(form):
             g = simp(g)
             ob = Obligation(nm, kind, fr.fname if fr else '?', lineno, list(st.pc) + list(h), list(st.qfacts), g, sk, clause)
+            if splits:
+                # proof-by-cases hint of the contract: bound variable name -> terms it should be compared with
+                ob.split_terms = {}
+                for k in sk:
+                    pn = smt.SK_NAMES.get(k.get_id())
+                    if pn in splits:
+                        ob.split_terms[k.get_id()] = (k, [ZI(t) for t in splits[pn]])
             if isinstance(g, bool):
                 g = z3.BoolVal(g)
                 ob.goal = g
@@ -180,6 +187,11 @@ class Exec(BufMixin):
             i = binop('Add', n, i)
         if fr is not None and fr.spec_only:
             return i
+        top = fr
+        if fr is not None and fr.contract is not None and fr.contract.allow_negative_index and is_sym(i):
+            # numpy: -n <= i < n, negative indices count from the end
+            self.safety(st, fr, 'index_bounds', b_and(compare('GtE', i, V.neg(n)), compare('Lt', i, n)), node)
+            return ite(compare('Lt', i, 0), binop('Add', i, n), i)
         lo = compare('GtE', i, 0)
         hi = compare('Lt', i, n)
         self.safety(st, fr, 'index_bounds', b_and(lo, hi), node)
@@ -437,6 +449,8 @@ class Exec(BufMixin):
             return FunVal('class', name, (mod.relpath, name))
         if name in mod.imports:
             rel, nm, modname = mod.imports[name]
+            if nm == 'pi' and modname and (modname.startswith('numpy') or modname.startswith('math')):
+                return V.PI
             if modname and (modname.startswith('numpy') or modname.startswith('math') or modname.startswith('scipy')):
                 return FunVal('builtin', nm)
             if modname and (modname.startswith('pyccel') or modname.startswith('typing') or modname.startswith('numba')):
@@ -463,6 +477,8 @@ class Exec(BufMixin):
             return self.ev(mod.globals[name], State(), Frame(mod, '<module>', None, None))
         if name == 'pi':
             return V.PI
+        if name in self.ctx.contracts and self.ctx.contracts[name].abstract and self.ctx.contracts[name].pure:
+            return FunVal('param', name, name)
         # pure repo functions under contract may be named in specifications of any module
         for k, c in self.ctx.contracts.items():
             if c.pure and k.endswith('::' + name) and '::' in k:
@@ -855,7 +871,8 @@ class Exec(BufMixin):
                     return f_and(parts)
                 return b_or(*[p for p in parts]) if parts else False
             if nm == 'forall':
-                return FForall(n, body, ast.unparse(e)[:80], [(bounds[2 * k], bounds[2 * k + 1]) for k in range(n)])
+                return FForall(n, body, ast.unparse(e)[:80], [(bounds[2 * k], bounds[2 * k + 1]) for k in range(n)],
+                               names=list(getattr(lam, '_params', [])))
             wit = [self.ev(k.value, st, fr) for k in e.keywords if k.arg == 'witness']
 
             def ebody(c, lam=lam, bounds=bounds):
